@@ -14,6 +14,7 @@ import Emboss.Lemmas.TokBoundary
 import Emboss.Lemmas.TokLongest
 import Emboss.Lemmas.TokSplit
 import Emboss.Lemmas.TokLineSpec
+import Emboss.Lemmas.TokBlankLine
 import Emboss.Generated.TokTable
 namespace Emboss.Tok
 open Emboss.Regex Emboss.Generated
@@ -317,6 +318,69 @@ example : (∃ segs, MunchCovers tokTable.pats 1 "a  0x_1".toList 0 segs ∧
         [⟨"SnakeWord", ['a'], 1, 1, 1, 2⟩, ⟨"Number", "0x_1".toList, 1, 4, 1, 8⟩])
     exact ⟨segs, h, e.symm⟩
   · exact ((C10_tokenize_line_eq_documented_spec 1 "a ~".toList).2 2).mp (by decide +kernel)
+
+/-! ## Tokens separated by a blank are tokenized independently -/
+
+/-- **Concatenation with a blank** (regenerated table; what a renderer that separates tokens
+by blanks needs).  Let the line `a` tokenize to `ta`, none of them a Comment / Documentation /
+BadDocumentation (those run to the end of the line by definition), `a` not ending in a blank,
+and let `c` be any blank (`str.isspace`).  Then for every `b` the line `a ++ c :: b`
+tokenizes to `ta` followed by the tokens of `c :: b` with their columns shifted by `|a|` —
+and if `c :: b` has an unrecognized character at offset `k`, the whole line reports it at
+`|a| + k`.  In particular no token of `a` changes its text, symbol or position because of
+what follows the blank, and no token spans the blank.  (Proof: at every position of `a`
+where a token or inner gap starts, no pattern of the table changes its answer when
+`c :: b` is appended — `table_local`.) -/
+theorem C10_concat_with_blank (ln : Nat) (a b : List Char) (c : Char) (ta : List Token)
+    (ha : tokLine tokTable.pats ln a.length a 0 = .ok ta)
+    (hopen : ∀ t ∈ ta, t.sym ≠ "Comment" ∧ t.sym ≠ "Documentation" ∧ t.sym ≠ "BadDocumentation")
+    (hlast : ∀ y, a.getLast? = some y → isSpaceChar y = false)
+    (hc : isSpaceChar c = true) :
+    (∀ tb, tokLine tokTable.pats ln (c :: b).length (c :: b) 0 = .ok tb →
+      tokLine tokTable.pats ln (a ++ c :: b).length (a ++ c :: b) 0 =
+        .ok (ta ++ tb.map (Token.shift a.length))) ∧
+    (∀ k, tokLine tokTable.pats ln (c :: b).length (c :: b) 0 = .err k →
+      tokLine tokTable.pats ln (a ++ c :: b).length (a ++ c :: b) 0 = .err (k + a.length)) := by
+  obtain ⟨segsA, hA, rfl⟩ := tokLine_covers _ _ _ _ _ _ ha
+  have hopen' : ∀ t ∈ tokensOf segsA, ¬ OpenEnded t.sym := by
+    intro t ht ho
+    obtain ⟨h1, h2, h3⟩ := hopen t ht
+    rcases ho with h | h | h
+    · exact h1 h
+    · exact h2 h
+    · exact h3 h
+  constructor
+  · intro tb hb
+    have hb' : tokLine tokTable.pats ln (c :: b).length (c :: b) (0 + a.length) =
+        .ok (tb.map (Token.shift a.length)) := by
+      rw [tokLine_shift, hb]; rfl
+    obtain ⟨segsB, hB, hB2⟩ := tokLine_covers _ _ _ _ _ _ hb'
+    have := (covers_append_blank hA hc hopen' hlast hB).tokLine_eq _ (Nat.le_refl _)
+    rw [this, hB2]
+    simp [tokensOf]
+  · intro k hb
+    have hb' : tokLine tokTable.pats ln (c :: b).length (c :: b) (0 + a.length) = .err (k + a.length) := by
+      rw [tokLine_shift, hb]; rfl
+    exact (stuck_append_blank hA hc hopen' hlast (tokLine_err_stuck _ _ _ _ _ _ hb')).tokLine_eq ln _
+      (Nat.le_refl _)
+
+/-- Non-vacuity (tests by evaluation): `x+1` and ` "s t" y` are tokenized independently; so are
+`0x_1` and ` ~`, the error moving to offset 5. -/
+example :
+    tokLine tokTable.pats 1 3 "x+1".toList 0 = .ok [⟨"SnakeWord", ['x'], 1, 1, 1, 2⟩,
+      ⟨"\"+\"", ['+'], 1, 2, 1, 3⟩, ⟨"Number", ['1'], 1, 3, 1, 4⟩] ∧
+    tokLine tokTable.pats 1 8 " \"s t\" y".toList 0 = .ok [⟨"String", "\"s t\"".toList, 1, 2, 1, 7⟩,
+      ⟨"SnakeWord", ['y'], 1, 8, 1, 9⟩] ∧
+    tokLine tokTable.pats 1 11 "x+1 \"s t\" y".toList 0 = .ok [⟨"SnakeWord", ['x'], 1, 1, 1, 2⟩,
+      ⟨"\"+\"", ['+'], 1, 2, 1, 3⟩, ⟨"Number", ['1'], 1, 3, 1, 4⟩,
+      ⟨"String", "\"s t\"".toList, 1, 5, 1, 10⟩, ⟨"SnakeWord", ['y'], 1, 11, 1, 12⟩] ∧
+    tokLine tokTable.pats 1 2 " ~".toList 0 = .err 1 ∧
+    tokLine tokTable.pats 1 6 "0x_1 ~".toList 0 = .err 5 := by
+  refine ⟨?_, ?_, ?_, ?_, ?_⟩ <;> decide +kernel
+
+/-- The hypothesis about open-ended tokens is needed: a comment swallows what follows. -/
+example : tokLine tokTable.pats 1 4 "#c x".toList 0 = .ok [⟨"Comment", "#c x".toList, 1, 1, 1, 5⟩] := by
+  decide +kernel
 
 /-! ## Classification of names and numbers (table-specific)
 
